@@ -26,7 +26,12 @@ class _LineInterp(Interp):
     track_lexer = False
     parse_outcome = None        # None: parse_statement intercepted; "ok" / "none" / "raise": parse_statement evaluated, the LALR call stubbed
 
+    init_only = frozenset()
+
     def attribute(self, e, env):
+        if isinstance(e.value, ast.Name) and e.value.id == "self" and e.attr in self.init_only and e.attr != "lexer" and e.attr not in self.self_attrs \
+                and e.attr not in self.methods:
+            raise LexUnknown(f"self.{e.attr} is set by the constructor in a form the line model does not evaluate")
         if e.attr == "parse" and isinstance(e.value, ast.Attribute) and e.value.attr == "yacc":
             o = self.ev(e.value, env)
             if isinstance(o, Obj) and getattr(o, "_kind", None) == "yacc":
@@ -72,6 +77,7 @@ class LineMachine:
         init = m.parser_method("__init__")
         # the constant part of the parser object: compiled regexes and settings, as the constructor sets them
         self.consts = {}
+        self.init_only = set()      # set by the constructor in a form that is not evaluated here
         for n in ast.walk(init.node):
             if isinstance(n, ast.Assign) and len(n.targets) == 1 and isinstance(n.targets[0], ast.Attribute) \
                     and isinstance(n.targets[0].value, ast.Name) and n.targets[0].value.id == "self":
@@ -85,6 +91,19 @@ class LineMachine:
                         raise AnalysisError(f"Parser.__init__: regex of self.{name} does not compile: {e}")
                 elif isinstance(v, ast.Constant):
                     self.consts[name] = v.value
+                else:
+                    try:
+                        self.consts[name] = ast.literal_eval(v)        # tuples / lists / dicts of constants
+                    except Exception:
+                        # anything else the interpreter can compute from constants and module-level values (a tuple built by a
+                        # comprehension, a dict of patterns ...); handles of PLY, the input text etc. stay unevaluated
+                        try:
+                            if any(isinstance(x, ast.Name) and x.id in ("content", "debug", "silent", "normalize_names", "log_file", "log_level", "self")
+                                   for x in ast.walk(v)):
+                                raise LexUnknown("depends on a constructor argument")
+                            self.consts[name] = Interp(m, ctx.grammar.tokens_ns, Obj()).ev(v, {"__module__": init.module})
+                        except Exception:
+                            self.init_only.add(name)
         self.consts.setdefault("silent", True)
         self.consts.setdefault("normalize_names", False)
         for need in ("in_comment", "equal_without_space", "skip_regex", "set_statement"):
@@ -159,6 +178,7 @@ class LineMachine:
         attrs = dict(self.consts)
         attrs.update(copy.deepcopy(state))
         it = _LineInterp(self.model, self.ctx.grammar.tokens_ns, attrs)
+        it.init_only = self.init_only
         it.cur_func = pd
         try:
             it.block(pd.node.body[loop[0] + 1:], {"__module__": pd.module})
@@ -179,6 +199,7 @@ class LineMachine:
         enc = lambda t: t.encode("unicode_escape")
         attrs["data"] = W([enc(x) for x in script.ex]) if isinstance(script, W) else enc(script)
         it = _LineInterp(self.model, self.ctx.grammar.tokens_ns, attrs)
+        it.init_only = self.init_only
         it.cur_func = pd
         env = {"__module__": pd.module}
         it.block(pd.node.body[:loop[0]], env)
@@ -195,6 +216,7 @@ class LineMachine:
         enc = lambda t: t.encode("unicode_escape")
         attrs["data"] = W([enc(x) for x in script.ex]) if isinstance(script, W) else enc(script)
         it = _LineInterp(self.model, self.ctx.grammar.tokens_ns, attrs)
+        it.init_only = self.init_only
         it.cur_func = pd
         try:
             it.block(pd.node.body, {"__module__": pd.module})
@@ -213,6 +235,7 @@ class LineMachine:
         attrs = dict(self.consts)
         attrs["data"] = b""
         it = _LineInterp(self.model, self.ctx.grammar.tokens_ns, attrs)
+        it.init_only = self.init_only
         it.track_lexer = True
         it.cur_func = pd
         for k in self.ctx.lexer.start_flags:
@@ -237,6 +260,7 @@ class LineMachine:
             attrs.update(copy.deepcopy(_project(copy.deepcopy(state), i) if width > 1 else state))
             attrs["line"] = _project(line, i) if width > 1 else line
             it = _LineInterp(self.model, self.ctx.grammar.tokens_ns, attrs)
+            it.init_only = self.init_only
             it.track_lexer = True
             for k in start:
                 setattr(it.lexer, k, self.DIRTY)
@@ -262,6 +286,7 @@ class LineMachine:
         attrs["silent"] = silent
         attrs["yacc"] = Obj(_kind="yacc")
         it = _LineInterp(self.model, self.ctx.grammar.tokens_ns, attrs)
+        it.init_only = self.init_only
         it.parse_outcome = outcome
         it.track_lexer = True           # the reset function is evaluated, not skipped
         for k in self.ctx.lexer.start_flags:
@@ -294,6 +319,7 @@ class LineMachine:
         attrs.update(copy.deepcopy(state))
         attrs["line"] = line
         it = _LineInterp(self.model, self.ctx.grammar.tokens_ns, attrs)
+        it.init_only = self.init_only
         f = self.model.parser_method("process_line")
         self.n_steps += 1
         it.call_func(f, [more_lines])
